@@ -36,6 +36,18 @@ package mod_doh
 //     interleavings of {convert, send, re-send} of both threads; the -race build reports a
 //     write shared between two conversions as a data race with exact happens-before edges
 //     (requests of different connections are not ordered by anything).
+//  F  the fetch step: the real DnsClient.Fetch (RequestToDnsMsg -> dns.Client.Exchange with
+//     retries -> DnsMsgToResponse) against an in-process scripted resolver on a loopback UDP
+//     socket (dns.Client can only dial real sockets). The harness holds every reply and
+//     releases it itself: 1 request; 2 sequential; 2 (thorough: 3) OVERLAPPING requests over
+//     {same question, different question} x {same client, different client} x every reply
+//     release order; first datagram dropped (the client's own timeout drives the retry),
+//     alone and with another request served meanwhile. Oracle on what the resolver received:
+//     every datagram is the reference conversion of one of the requests, every request has
+//     its own datagram (multiset), and every client gets the reply to its own query (id,
+//     question, echoed ECS). Overlap is established by state, not by time: a request counts
+//     as waiting when its goroutine is parked in the network read and its datagram is in the
+//     harness's hands (or, on broken code, parked elsewhere for several observations).
 //
 // Oracle (exactly the statement):
 //   plain well-formed query (one question, QUERY opcode, QR=0, additional section empty or
@@ -57,9 +69,13 @@ import (
 	"encoding/binary"
 	"fmt"
 	"io"
+	"io/ioutil"
 	"net"
+	"regexp"
+	"runtime"
 	"strings"
 	"testing"
+	"time"
 
 	"github.com/miekg/dns"
 
@@ -482,9 +498,19 @@ func (f *c56frag) Read(p []byte) (int, error) {
 // c56exec runs the real code: HTTP request bytes -> bfe_http.Request -> RequestToDnsMsg.
 // httpErr != nil: bfe's HTTP layer already refused the request (it never reaches mod_doh).
 func c56exec(raw []byte, frag int, ac c56AddrCombo) (msg *dns.Msg, err error, httpErr error) {
-	hr, e := bfe_http.ReadRequest(bfe_bufio.NewReader(&c56frag{raw, frag}), c56MaxURI)
+	req, e := c56mkReq(raw, frag, ac)
 	if e != nil {
 		return nil, nil, e
+	}
+	msg, err = RequestToDnsMsg(req)
+	return msg, err, nil
+}
+
+// c56mkReq: HTTP request bytes -> bfe_http.Request (real parser) -> bfe_basic.Request.
+func c56mkReq(raw []byte, frag int, ac c56AddrCombo) (*bfe_basic.Request, error) {
+	hr, e := bfe_http.ReadRequest(bfe_bufio.NewReader(&c56frag{raw, frag}), c56MaxURI)
+	if e != nil {
+		return nil, e
 	}
 	req := &bfe_basic.Request{HttpRequest: hr}
 	// fresh copies: the code under test must not depend on / mutate shared address objects
@@ -498,8 +524,7 @@ func c56exec(raw []byte, frag int, ac c56AddrCombo) (msg *dns.Msg, err error, ht
 			req.ClientAddr = &net.TCPAddr{IP: append(net.IP(nil), ac.client.IP...), Port: ac.client.Port}
 		}
 	}
-	msg, err = RequestToDnsMsg(req)
-	return msg, err, nil
+	return req, nil
 }
 
 // ---------------------------------------------------------------------------------------
@@ -1354,6 +1379,597 @@ func (x *c56Run) racePart(qs []c56SeqQ, cs []c56AddrCombo, idx *int) {
 	r.Set("race_part", fmt.Sprintf("%d queries x %d clients, all unordered pairs on 2 threads, all interleavings of {convert, send, re-send}; race detector on=%v", len(qs), len(cs), vsched.RaceEnabled))
 }
 
+// ---------------------------------------------------------------------------------------
+// Part F: the fetch step against a scripted resolver.
+
+type c56FReq struct {
+	name string
+	raw  []byte
+	cm   *c56Msg
+	ac   c56AddrCombo
+	qkey string // question
+	ckey string // client address
+}
+
+func c56fetchRequests(th bool) []c56FReq {
+	qa := []c56Q{{"a.example.", 1, 1}}
+	qb := []c56Q{{"b.example.", 28, 1}}
+	ms := []*c56Msg{
+		{id: 0, flags: 0x0100, q: qa, label: "a/A,id0"},
+		{id: 0x1111, flags: 0x0100, q: qa, label: "a/A,id1111"},
+		{id: 0x2222, flags: 0x0120, q: qa, ar: []c56RR{c56optRR(4096, 0x8000, c56cookie)}, label: "a/A,id2222,opt-do-cookie"},
+		{id: 0, flags: 0x0100, q: qb, label: "b/AAAA,id0"},
+	}
+	if th {
+		ms = append(ms,
+			&c56Msg{id: 0x3333, flags: 0x0100, q: qa, ar: []c56RR{c56optRR(1232, 0, c56Opt{8, []byte{0, 1, 24, 0, 198, 51, 100}})}, label: "a/A,id3333,opt-ecs24"},
+			&c56Msg{id: 0, flags: 0x0100, q: []c56Q{{"A.EXAMPLE.", 1, 1}}, label: "A.EXAMPLE/A,id0"},
+		)
+	}
+	cl := []c56AddrCombo{
+		{name: "r=v4b4(192.0.2.10)", remote: c56tcp(c56v4b4("192.0.2.10")), eff: c56v4b4("192.0.2.10"), judged: true},
+		{name: "r=v6(2001:db8::beef)", remote: c56tcp(c56v6("2001:db8::beef")), eff: c56v6("2001:db8::beef"), judged: true},
+		{name: "r=v4b4(10.9.9.9),c=v4b16(198.51.100.7)", remote: c56tcp(c56v4b4("10.9.9.9")), client: c56tcp(c56v4b16("198.51.100.7")), eff: c56v4b16("198.51.100.7"), judged: true},
+	}
+	var out []c56FReq
+	for i, m := range ms {
+		wire := c56encode(m)
+		cm, _, e := c56parse(wire)
+		if e != "" {
+			panic("harness bug: fetch query " + m.label + ": " + e)
+		}
+		for _, ac := range cl {
+			fr := c56FReq{cm: cm, ac: ac, qkey: fmt.Sprint(m.q), ckey: ac.eff.ip.String()}
+			if i%2 == 0 {
+				fr.name, fr.raw = m.label+"/get@"+ac.name, c56get("dns="+c56b64(wire))
+			} else {
+				fr.name, fr.raw = m.label+"/post@"+ac.name, c56postCL(wire, len(wire))
+			}
+			out = append(out, fr)
+		}
+	}
+	return out
+}
+
+type c56Dgram struct {
+	data []byte
+	from net.Addr
+}
+
+type c56FRes struct {
+	idx    int
+	err    error
+	status int
+	body   []byte
+	panicV string
+}
+
+// c56fetchGo is the goroutine of one DoH request (bfe runs one per request). Its name is what
+// c56fetchStates looks for in the goroutine dump.
+func c56fetchGo(cl *DnsClient, req *bfe_basic.Request, idx int, done chan<- c56FRes) {
+	res := c56FRes{idx: idx}
+	defer func() {
+		if e := recover(); e != nil {
+			res.panicV = fmt.Sprintf("%v\n%s", e, c56shortStack())
+		}
+		done <- res
+	}()
+	resp, err := cl.Fetch(req)
+	res.err = err
+	if err == nil && resp != nil {
+		res.status = resp.StatusCode
+		res.body, _ = ioutil.ReadAll(resp.Body)
+	}
+}
+
+func c56shortStack() string {
+	buf := make([]byte, 4096)
+	return string(buf[:runtime.Stack(buf, false)])
+}
+
+var c56goHdr = regexp.MustCompile(`^goroutine \d+ \[([^\],]+)`)
+
+// c56fetchStates classifies the live request goroutines: parked in network I/O, parked on
+// something else, or active (running / runnable / in a system call).
+func c56fetchStates() (ioWait, parked, active int) {
+	buf := make([]byte, 1<<18)
+	for {
+		n := runtime.Stack(buf, true)
+		if n < len(buf) {
+			buf = buf[:n]
+			break
+		}
+		buf = make([]byte, 2*len(buf))
+	}
+	for _, g := range strings.Split(string(buf), "\n\n") {
+		mine := false
+		for _, l := range strings.Split(g, "\n") {
+			if strings.Contains(l, "mod_doh.c56fetchGo(") && !strings.HasPrefix(l, "created by") {
+				mine = true
+			}
+		}
+		if !mine {
+			continue
+		}
+		m := c56goHdr.FindStringSubmatch(g)
+		st := ""
+		if m != nil {
+			st = m[1]
+		}
+		switch st {
+		case "IO wait":
+			ioWait++
+		case "running", "runnable", "syscall", "":
+			active++
+		default:
+			parked++
+		}
+	}
+	return
+}
+
+type c56Fetch struct {
+	r        *vk.Run
+	pc       net.PacketConn
+	in       chan c56Dgram
+	done     chan c56FRes
+	cl       *DnsClient
+	reqs     []*c56FReq
+	held     []c56Dgram // received, not yet answered
+	all      [][]byte   // every datagram received, in order
+	res      map[int]c56FRes
+	started  int
+	dropped  int
+	lossy    bool // client timer is short: it may re-send by itself at any moment
+	overlaps int  // number of times >= 2 requests were waiting for the resolver together
+	broken   bool // machinery guard hit
+	notes    []string
+}
+
+const c56RetryMax = 5
+
+const c56Guard = 90 * time.Second // machinery guard only; never an oracle
+
+func c56newFetch(r *vk.Run, reqs []*c56FReq, timeoutMs int) (*c56Fetch, error) {
+	pc, err := net.ListenPacket("udp", "127.0.0.1:0")
+	if err != nil {
+		return nil, err
+	}
+	f := &c56Fetch{r: r, pc: pc, in: make(chan c56Dgram, 256), done: make(chan c56FRes, 16), reqs: reqs, res: map[int]c56FRes{}}
+	go func() {
+		buf := make([]byte, 65536)
+		for {
+			n, from, err := pc.ReadFrom(buf)
+			if err != nil {
+				return
+			}
+			f.in <- c56Dgram{append([]byte(nil), buf[:n]...), from}
+		}
+	}()
+	f.cl = NewDnsClient(&DnsConf{Address: pc.LocalAddr().String(), RetryMax: c56RetryMax, Timeout: timeoutMs})
+	return f, nil
+}
+
+func (f *c56Fetch) take(d c56Dgram) {
+	f.held = append(f.held, d)
+	f.all = append(f.all, d.data)
+}
+
+func (f *c56Fetch) drain() {
+	for {
+		select {
+		case d := <-f.in:
+			f.take(d)
+		case rs := <-f.done:
+			f.res[rs.idx] = rs
+		default:
+			return
+		}
+	}
+}
+
+func (f *c56Fetch) start(i int) {
+	req, err := c56mkReq(f.reqs[i].raw, 0, f.reqs[i].ac)
+	if err != nil {
+		panic("harness bug: " + err.Error())
+	}
+	f.started++
+	go c56fetchGo(f.cl, req, i, f.done)
+}
+
+// quiesce returns when every started request has either finished or is waiting: parked in
+// the network read with its datagram in our hands (exact), or parked on something else for
+// several consecutive observations (only broken code gets there).
+func (f *c56Fetch) quiesce() {
+	if f.broken {
+		return
+	}
+	t0 := time.Now()
+	stable := 0
+	for n := 0; ; n++ {
+		f.drain()
+		io, parked, active := c56fetchStates()
+		f.drain()
+		unfinished := f.started - len(f.res)
+		// (with the short client timer of the retry scenarios the client may re-send by itself
+		// at any moment and leave datagrams of abandoned sockets in our hands: no upper bound)
+		ok := active == 0 && io+parked == unfinished && len(f.held) >= io-f.dropped && (f.lossy || len(f.held) <= io)
+		if ok && parked == 0 {
+			break
+		}
+		if ok && n >= 20 { // only observations separated by a pause count
+			stable++
+			if stable >= 10 {
+				f.notes = append(f.notes, fmt.Sprintf("%d request(s) parked outside the network read", parked))
+				break
+			}
+		} else if !ok {
+			stable = 0
+		}
+		if time.Since(t0) > c56Guard {
+			f.broken = true
+			f.r.Cap("machinery:fetch-quiescence")
+			f.r.Set("fetch_guard_diag", fmt.Sprintf("io=%d parked=%d active=%d started=%d finished=%d held=%d dropped=%d", io, parked, active, f.started, len(f.res), len(f.held), f.dropped))
+			return
+		}
+		if n < 20 {
+			runtime.Gosched()
+		} else {
+			time.Sleep(500 * time.Microsecond) // polling pause, not an oracle
+		}
+	}
+	if f.started-len(f.res) >= 2 {
+		f.overlaps++
+	}
+}
+
+// c56reply is the resolver's answer: the query echoed with QR/RA set, one answer record,
+// and the query's OPT record(s) (so the ECS option the resolver saw comes back).
+func c56reply(q []byte, serial int) []byte {
+	m, _, e := c56parse(q)
+	if e != "" || m == nil {
+		r := make([]byte, 12)
+		if len(q) >= 2 {
+			copy(r, q[:2])
+		}
+		r[2], r[3] = 0x81, 0x82 // SERVFAIL-ish: FORMERR would do as well
+		return r
+	}
+	r := &c56Msg{id: m.id, flags: m.flags | 0x8080, q: m.q}
+	if len(m.q) > 0 {
+		r.an = []c56RR{{name: m.q[0].name, typ: 1, class: 1, ttl: 60, rdata: []byte{192, 0, 2, byte(serial)}}}
+	}
+	for _, rr := range m.ar {
+		if rr.typ == c56TypeOPT {
+			r.ar = append(r.ar, rr)
+		}
+	}
+	return c56encode(r)
+}
+
+func (f *c56Fetch) answer(k int) {
+	d := f.held[k]
+	f.held = append(f.held[:k], f.held[k+1:]...)
+	f.pc.WriteTo(c56reply(d.data, len(f.all)), d.from)
+}
+
+// heldFor finds the held datagram that belongs to request i: the one that is its reference
+// conversion, else one with its id and question, else -1.
+func (f *c56Fetch) heldFor(i int) int {
+	for k, d := range f.held {
+		if len(c56judgeWire(f.reqs[i].cm, d.data, f.reqs[i].ac, 2)) == 0 {
+			return k
+		}
+	}
+	for k, d := range f.held {
+		if m, _, e := c56parse(d.data); e == "" && m.id == f.reqs[i].cm.id && fmt.Sprint(m.q) == fmt.Sprint(f.reqs[i].cm.q) {
+			return k
+		}
+	}
+	return -1
+}
+
+// finish answers everything that arrives until all requests have returned.
+func (f *c56Fetch) finish() {
+	guard := time.NewTimer(c56Guard)
+	defer guard.Stop()
+	for !f.broken {
+		f.drain()
+		for len(f.held) > 0 {
+			f.answer(0)
+		}
+		if len(f.res) == f.started {
+			break
+		}
+		select {
+		case d := <-f.in:
+			f.take(d)
+		case rs := <-f.done:
+			f.res[rs.idx] = rs
+		case <-guard.C:
+			f.broken = true
+			f.r.Cap("machinery:fetch-finish")
+		}
+	}
+	f.pc.Close()
+}
+
+type c56FScn struct {
+	mode  string // single | seq | overlap | drop | drop+other
+	reqs  []int
+	order []int
+}
+
+func c56relation(rs []*c56FReq) string {
+	if len(rs) == 1 {
+		return "one-request"
+	}
+	if len(rs) > 2 {
+		return "three-requests"
+	}
+	q, c := "different-question", "different-client"
+	if rs[0].qkey == rs[1].qkey {
+		q = "same-question"
+	}
+	if rs[0].ckey == rs[1].ckey {
+		c = "same-client"
+	}
+	return q + ":" + c
+}
+
+func (x *c56Run) fetchScenario(id string, sc c56FScn, alphabet []c56FReq) {
+	r := x.r
+	var reqs []*c56FReq
+	for _, i := range sc.reqs {
+		reqs = append(reqs, &alphabet[i])
+	}
+	timeout := 120000 // ms: replies are held by the harness, the client must not give up meanwhile
+	if strings.HasPrefix(sc.mode, "drop") {
+		timeout = 1500 // the client's own timer drives the retry; nothing is judged by time
+	}
+	f, err := c56newFetch(r, reqs, timeout)
+	if err != nil {
+		r.Cap("machinery:no-loopback-udp")
+		return
+	}
+	f.lossy = strings.HasPrefix(sc.mode, "drop")
+	release := func(i int) {
+		if k := f.heldFor(i); k >= 0 {
+			f.answer(k)
+			f.quiesce()
+		} else {
+			f.notes = append(f.notes, fmt.Sprintf("no datagram of request %d to answer", i))
+		}
+	}
+	switch sc.mode {
+	case "single", "seq":
+		for i := range reqs {
+			f.start(i)
+			f.quiesce()
+			release(i)
+		}
+	case "overlap":
+		for i := range reqs {
+			f.start(i)
+			f.quiesce()
+		}
+		for _, i := range sc.order {
+			release(i)
+		}
+	case "drop", "drop+other":
+		f.start(0)
+		f.quiesce()
+		if k := f.heldFor(0); k >= 0 {
+			f.held = append(f.held[:k], f.held[k+1:]...) // lost datagram
+			f.dropped++
+		}
+		if sc.mode == "drop+other" {
+			f.start(1)
+			f.quiesce()
+			release(1)
+		}
+	}
+	f.finish()
+	if f.broken {
+		r.Outcome("fetch:machinery-guard")
+		return
+	}
+	cls := "fetch:" + sc.mode + ":" + c56relation(reqs)
+	bad := false
+	vio := func(sig, detail string) {
+		bad = true
+		r.Violation(sig, id, detail+fmt.Sprintf(" [resolver received %d datagram(s) for %d request(s)%s]", len(f.all), len(reqs), strings.Join(append([]string{""}, f.notes...), "; ")))
+	}
+	// (1) every datagram is the reference conversion of one of the requests
+	okFor := make([][]bool, len(f.all))
+	for d, data := range f.all {
+		okFor[d] = make([]bool, len(reqs))
+		any := false
+		var best []c56Verdict
+		for i, rq := range reqs {
+			vs := c56judgeWire(rq.cm, data, rq.ac, 2)
+			okFor[d][i] = len(vs) == 0
+			any = any || len(vs) == 0
+			if best == nil || len(vs) < len(best) {
+				best = vs
+			}
+		}
+		if !any {
+			vio(cls+":datagram-of-no-request:"+best[0].sig, fmt.Sprintf("datagram %d (%x) is not the conversion of any request: %s", d, data, best[0].detail))
+		}
+	}
+	// (2) every request has its own datagram (matching requests -> distinct datagrams)
+	used := make([]bool, len(f.all))
+	var match func(i int) bool
+	match = func(i int) bool {
+		if i == len(reqs) {
+			return true
+		}
+		for d := range f.all {
+			if !used[d] && okFor[d][i] {
+				used[d] = true
+				if match(i + 1) {
+					return true
+				}
+				used[d] = false
+			}
+		}
+		return false
+	}
+	if !match(0) {
+		missing := []string{}
+		for i, rq := range reqs {
+			n := 0
+			for d := range f.all {
+				if okFor[d][i] {
+					n++
+				}
+			}
+			missing = append(missing, fmt.Sprintf("%s: %d", rq.name, n))
+		}
+		vio(cls+":request-not-forwarded", "not every request has a datagram of its own at the resolver (matching datagrams per request: "+strings.Join(missing, ", ")+")")
+	}
+	// (3) every client gets the reply to its own query
+	for i, rq := range reqs {
+		rs := f.res[i]
+		switch {
+		case rs.panicV != "":
+			vio(cls+":panic:"+vk.PanicSite(rs.panicV), "Fetch panicked: "+rs.panicV)
+			continue
+		case rs.err != nil:
+			sent := 0
+			for d := range f.all {
+				if okFor[d][i] {
+					sent++
+				}
+			}
+			if f.lossy && sent >= c56RetryMax+1 {
+				// the client used up all its attempts before the (starved) harness answered
+				// one of them in time: nothing to judge about bfe
+				r.Outcome("fetch:" + sc.mode + ":client-gave-up-unjudged")
+				continue
+			}
+			vio(cls+":reply:error", fmt.Sprintf("Fetch of %s failed: %v", rq.name, rs.err))
+			continue
+		}
+		m, trailing, e := c56parse(rs.body)
+		if e != "" || trailing != 0 || rs.status != 200 {
+			vio(cls+":reply:not-a-dns-message", fmt.Sprintf("response to %s: status %d body %x (%s)", rq.name, rs.status, rs.body, e))
+			continue
+		}
+		if m.id != rq.cm.id {
+			vio(cls+":reply:wrong-id", fmt.Sprintf("%s has id %04x, its reply has id %04x", rq.name, rq.cm.id, m.id))
+		}
+		if fmt.Sprint(m.q) != fmt.Sprint(rq.cm.q) {
+			vio(cls+":reply:wrong-question", fmt.Sprintf("%s asked %v, its reply answers %v", rq.name, rq.cm.q, m.q))
+		}
+		want := append([]byte{0, 1, 32, 0}, rq.ac.eff.ip.To4()...)
+		if rq.ac.eff.family == 2 {
+			want = append([]byte{0, 2, 128, 0}, rq.ac.eff.ip.To16()...)
+		}
+		found := false
+		var seen []string
+		for _, rr := range m.ar {
+			if rr.typ != c56TypeOPT {
+				continue
+			}
+			all, _ := c56options(rr.rdata)
+			for _, o := range all {
+				if o.code == 8 {
+					seen = append(seen, fmt.Sprintf("%x", o.data))
+					found = found || bytes.Equal(o.data, want)
+				}
+			}
+		}
+		if !found {
+			vio(cls+":reply:computed-for-another-subnet", fmt.Sprintf("the reply given to %s echoes ECS %v, not this client's %x: it was computed for another query", rq.name, seen, want))
+		}
+	}
+	ov := "no-overlap"
+	if f.overlaps > 0 {
+		ov = "overlapped"
+	}
+	if bad {
+		r.Outcome("fetch:" + sc.mode + ":violation:" + ov)
+	} else {
+		r.Outcome("fetch:" + sc.mode + ":ok:" + ov)
+	}
+	r.Transitions(int64(len(f.all)))
+}
+
+func c56perms(n int) [][]int {
+	if n == 1 {
+		return [][]int{{0}}
+	}
+	var out [][]int
+	for _, p := range c56perms(n - 1) {
+		for pos := 0; pos <= len(p); pos++ {
+			q := append(append(append([]int{}, p[:pos]...), n-1), p[pos:]...)
+			out = append(out, q)
+		}
+	}
+	return out
+}
+
+func (x *c56Run) fetchPart(th bool, idx *int) {
+	r := x.r
+	al := c56fetchRequests(th)
+	n := 0
+	run := func(sc c56FScn) {
+		*idx++
+		if !r.Mine(*idx) || r.Expired("F") {
+			return
+		}
+		names := make([]string, len(sc.reqs))
+		for i, k := range sc.reqs {
+			names[i] = al[k].name
+		}
+		id := vk.Key("F", sc.mode, strings.Join(names, " + "), fmt.Sprint(sc.order))
+		if !r.Case(id) {
+			return
+		}
+		r.Nontrivial(id)
+		n++
+		x.fetchScenario(id, sc, al)
+	}
+	for a := range al {
+		run(c56FScn{mode: "single", reqs: []int{a}})
+	}
+	for a := range al {
+		for b := range al {
+			run(c56FScn{mode: "seq", reqs: []int{a, b}})
+			for _, p := range c56perms(2) {
+				run(c56FScn{mode: "overlap", reqs: []int{a, b}, order: p})
+			}
+		}
+	}
+	// retry paths (each costs one client timeout of wall time: a selection)
+	for a := range al {
+		if th || a%3 == 0 {
+			run(c56FScn{mode: "drop", reqs: []int{a}})
+		}
+		for b := range al {
+			if th && (a+b)%2 == 0 || !th && a%5 == 0 && b%2 == 1 {
+				run(c56FScn{mode: "drop+other", reqs: []int{a, b}})
+			}
+		}
+	}
+	if th {
+		// three overlapping requests over the first two queries x the first two clients + a different question
+		sub := []int{0, 1, 3, 4, 9, 10}
+		for _, a := range sub {
+			for _, b := range sub {
+				for _, c := range sub {
+					for _, p := range c56perms(3) {
+						run(c56FScn{mode: "overlap", reqs: []int{a, b, c}, order: p})
+					}
+				}
+			}
+		}
+	}
+	r.Set("fetch_part", fmt.Sprintf("%d request kinds (query x transport x client); single, all ordered pairs sequential and overlapping x release orders, retry after a dropped datagram (selection), thorough: triples; resolver = loopback UDP stub scripted by the harness; scenarios run by this shard: %d", len(al), n))
+}
+
 func TestVerifC56(t *testing.T) {
 	r := vk.Start(t, "C56")
 	defer r.Finish()
@@ -1396,6 +2012,9 @@ func TestVerifC56(t *testing.T) {
 		x.seqExplore("L2", c56seqQueries(5), c56seqClients(4), 2, 4, &idx)
 	}
 	r.Sample(map[string]string{"part": "S", "example": "conv0(noopt/get, 198.51.100.7) pack0 conv1(noopt/get, 2001:db8::42) pack0 => the re-sent message 0 must still carry ECS 1/32 198.51.100.7"})
+	// ---- F: the fetch step against the scripted resolver
+	x.fetchPart(th, &idx)
+	r.Sample(map[string]string{"part": "F", "example": "Fetch(a.example/A id 0 from 192.0.2.10) waits for its reply; Fetch(a.example/A id 0 from 2001:db8::beef) is started; the resolver must receive two datagrams, the second with ECS 2/128 2001:db8::beef, and each client gets the reply echoing its own ECS"})
 	// ---- R: two requests on two threads, all interleavings, race detector
 	x.racePart(c56seqQueries(r.Pick(3, 6)), c56seqClients(r.Pick(2, 4)), &idx)
 
